@@ -29,7 +29,7 @@ LINK = {
     "cov":   ["--coverage"],
     "tsan":  ["-fsanitize=thread"],
 }
-HARNESSES = ["c16_dispatch", "c06_parallel", "c13_container", "c17_workflow", "c06_omp_tsan", "simtest"]
+HARNESSES = ["c16_dispatch", "c06_parallel", "c13_container", "c17_workflow", "c06_omp_tsan", "omp_threads_selftest", "simtest"]
 
 
 def sha(*parts):
